@@ -38,3 +38,8 @@ check("C13", ESC_TECH + "; who-may-write and call-site enumeration for the furth
       "That the line/column/source line shown are those of p is arithmetic (see C14) and not decided.", "§4 C13")
 for _p in ("C07", "C11", "C13"):
     NOT_APPLICABLE.pop(_p, None)
+
+check("C16", OPS_TECH + " (position-write / input-access justification per path); whole-program enumeration of input reads, template lines and pattern fragments against closed lists; type-driven or-default search",
+      "Static: every advance of state.pos on every abstract path of every operator/template is justified by a match of exactly that literal / regex match / bounds check at the same position; every assignment to state.pos is a saved position, match end, find result or len(input); every read of the input string (17 sites + 20 template lines) is position-relative; no pattern fragment (36) anchors or looks behind; pos seeded from start_pos in both entry points; only SOI compares the position with an absolute offset.",
+      "Sufficient as well as necessary modulo the semantics of str.startswith/find and regex match(s, pos). SOI-using grammars are outside the property.", "§3.7, §4 C16")
+NOT_APPLICABLE.pop("C16", None)
